@@ -64,6 +64,7 @@ class Engine(object):
         self.refine_class = True
         self.seed_reassigned = set()
         self.seed_deleted = set()
+        self.failed_flush_continued = False
         self.step_no = 0
         self.errlog = []
         self.unflushed = set()
@@ -81,6 +82,7 @@ class Engine(object):
             # a session that keeps running after a failed call changed it: later reports carry that call's context
             fc = dict(getattr(self, 'tainted_ctx', None) or {}, tainted=self.tainted)
         if fc and isinstance(detail, dict) and monitor != 'atomic': detail = dict(detail, after_failed_call=fc)
+        if getattr(self, 'failed_flush_continued', False) and isinstance(detail, dict): detail = dict(detail, failed_flush_continued=True)
         sd = getattr(self, 'seed_deleted', None)
         if sd and isinstance(detail, dict): detail = dict(detail, seed_deleted=sorted(sd))
         self.reports.append(Report(monitor, kind, detail))
@@ -125,6 +127,7 @@ class Engine(object):
         self.h = {}; self.rev = {}
         self.seed_reassigned = set()
         self.seed_deleted = set()
+        self.failed_flush_continued = False
         self.rec.tag('s%d' % self.session_no)
 
     def _exit_session(self, abort=False):
